@@ -7,7 +7,7 @@ exceptions aside) — this is what C02/C04(pending)/C08(i)/C10(c,d,e) need.
 """
 import ast, z3
 from ..core import *
-from ..domain import Domain, IntHavoc, LIB_ROOTS
+from ..domain import Domain, IntHavoc, LIB_ROOTS, ParamsMixin
 
 
 # opaque Python values (vectors, arrays of residual vectors) that the call-site obligations of C03 follow
@@ -72,7 +72,7 @@ class NanTest(Unk):
         Unk.__init__(self, 'isnan(evaluated values)')
 
 
-class LedgerDomain(Domain):
+class LedgerDomain(ParamsMixin, Domain):
     name = 'L'
     float_mode = 'havoc'
     smt_logic = None        # let z3 choose (linear integer arithmetic + UF): several times faster than logic ALL on these queries
@@ -138,6 +138,7 @@ class LedgerDomain(Domain):
     def install_ledger_builtins(self):
         b = self.builtins
         b['ParameterList.__call__'] = self.b_params
+        b['ParameterList.check_all_params'] = self.params_check_all
         b['np.any'] = self.b_np_any
         b['np.isnan'] = self.b_np_isnan
         b['np.mean'] = self.b_np_mean
@@ -268,33 +269,10 @@ class LedgerDomain(Domain):
 
     def init_state(self, st, fi, con):
         Domain.init_state(self, st, fi, con)
-        # integer / boolean parameters as read from params.py on this run: stable symbols (floats stay havoc)
-        for key, dflt in self.repo.param_defaults.items():
-            t = self.repo.param_types.get(key, (None,))[0]
-            if t == 'int':
-                st.heap[('params', key)] = fint('P_' + key)
-            elif t == 'bool':
-                st.heap[('params', key)] = fbool('P_' + key)
+        self.params_init(st)
 
     def b_params(self, eng, node, args, kw, st):
-        args = [a for a in args if not isinstance(a, Ref)]
-        key = args[0] if args else None
-        if 'new_value' in kw or len(args) > 1:
-            # parameter update: the tracked value of that key becomes unknown
-            if isinstance(key, StrV) and z3.is_int_value(key.id):
-                k = ('params', INTERN_REV[key.id.as_long()])
-                if k in st.heap:
-                    st.heap[k] = self.fresh_like('P', st.heap[k], st)
-            else:
-                for k in list(st.heap):
-                    if k[0] == 'params':
-                        st.heap[k] = self.fresh_like('P', st.heap[k], st)
-            return UNK
-        if isinstance(key, StrV) and z3.is_int_value(key.id):
-            k = ('params', INTERN_REV[key.id.as_long()])
-            if k in st.heap:
-                return st.heap[k]
-        return UNK
+        return self.params_get(eng, node, args, kw, st)
 
     def call_frame(self, eng, callnode):
         out = Domain.call_frame(self, eng, callnode)
